@@ -174,7 +174,7 @@ def main(prop: str, tier: str) -> int:
             if docs:
                 samples.append({'layout': docs[len(docs) // 3], 'text': doclib.render(docs[len(docs) // 3], run['flavors'][0])})
             jobs = [(run['flavors'], ch) for ch in common.chunked(docs, 200)]
-            for a, rj, sb, dr, out in pool.imap_unordered(_chunk, jobs):
+            for a, rj, sb, dr, out in common.gmap(pool, rep, _chunk, jobs):
                 acc += a
                 rej += rj
                 subs += sb
